@@ -9,6 +9,7 @@ import (
 	"time"
 
 	z "github.com/Oudwins/zog"
+	"github.com/Oudwins/zog/conf"
 	"pgregory.net/rapid"
 
 	"verifharness/hh"
@@ -320,6 +321,9 @@ func expectedDetails(spec *model.SpecOut, markers map[string]bool) []detail {
 			}
 			if o.MsgFunc != "" && !(o.Msg != "" && o.MsgLast) {
 				x.msg = o.MsgFunc // of Message and MessageFunc the one passed later decides
+				if o.MsgFunc == model.NoopMsgFunc {
+					x.msg = "<default>" // a MessageFunc that sets nothing leaves the message to the formatters below it
+				}
 			}
 			if o.HasParams {
 				m := map[string]any{}
@@ -367,6 +371,7 @@ func propC17(c c17Case) hh.Verdict {
 		input = in.Go()
 	}
 	dest := newDest(typ, cs, false)
+	processPrelude() // recycled issues (with the texts of other tests) are what this execution builds its own issues from
 	res := model.Run(schema, env, cs.Exec, input, dest)
 	if res.Panic != nil {
 		return hh.Fail("panic: %v", res.Panic)
@@ -376,6 +381,14 @@ func propC17(c c17Case) hh.Verdict {
 		d := detail{path: is.Path, code: is.Code, dtype: is.Dtype, msg: "<default>", params: canonParams(is.Params)}
 		if markers[is.Message] {
 			d.msg = is.Message
+		} else {
+			// "<default>" means: what the default formatter renders for THIS issue (not some other issue's text)
+			cp := *is
+			cp.Message = ""
+			conf.DefaultIssueFormatter(&cp, nil)
+			if cp.Message != is.Message {
+				d.msg = "<foreign: " + is.Message + ">"
+			}
 		}
 		got = append(got, d)
 	}
@@ -455,7 +468,7 @@ func genC17(rt *rapid.T, mode string) c17Case {
 			case "msg":
 				o.Msg = rapid.SampledFrom([]string{"MSG-A", "MSG-B"}).Draw(rt, "m")
 			case "msgfunc":
-				o.MsgFunc = rapid.SampledFrom([]string{"FN-A", "FN-B"}).Draw(rt, "mf")
+				o.MsgFunc = rapid.SampledFrom([]string{"FN-A", "FN-B", model.NoopMsgFunc}).Draw(rt, "mf")
 			case "code":
 				o.Code = rapid.SampledFrom([]string{"code_a", "code_b", "min"}).Draw(rt, "c")
 			case "path":
